@@ -615,7 +615,6 @@ func (n nilTrack) onReturn(st string, ret *ssa.Return, call ssa.CallInstruction)
 	return out
 }
 
-
 // extendedBody returns fn and the same-package functions it (transitively)
 // calls statically: where a piece of fn lives after a helper was extracted.
 func extendedBody(fn *ssa.Function) []*ssa.Function {
